@@ -183,7 +183,7 @@ def _fsm_cells(ck, fx, hb):
             recv = ef["args"][1] if len(ef["args"]) > 1 else None
             if cn in ("push", "write_char") and len(ef["args"]) == 3 and recv is not None and recv[0] == "var":
                 a = ef["args"][2]
-                writes.append(a[1] if a[0] == "lit" else ("same" if a == cv else ("next" if also_same is not None and a == also_same(ef) else "?")))
+                writes.append(a[1] if a[0] == "lit" else ("same" if a == cv else ("term", a)))
             elif cn in ("push_str", "write_str") and len(ef["args"]) == 3 and recv is not None and recv[0] == "var":
                 a = ef["args"][2]
                 rendered = any(x["k"] == "call" and "evaluate_as_string" in x["args"][0][1] and x.get("res") is not None and _mentions(a, x["res"]) for x in s_.eff)
@@ -192,6 +192,20 @@ def _fsm_cells(ck, fx, hb):
                 argn += 1
             elif cn == "next" and recv == IT:
                 looks.append(ef.get("res"))
+        # an owned String buffer that is appended to holds `concat_str(buffer, piece, …)` afterwards (no call effect)
+        for val in s_.env.values():
+            if isinstance(val, tuple) and val[:2] == ("app", "concat_str") and val[2] and val[2][0][:1] == ("var",):
+                for a in val[2][1:]:
+                    if a[0] == "lit":
+                        writes.append(a[1])
+                    elif a == cv:
+                        writes.append("same")
+                    elif any(x["k"] == "call" and "evaluate_as_string" in x["args"][0][1] and x.get("res") is not None and _mentions(a, x["res"]) for x in s_.eff):
+                        writes.append("<argument>")
+                    elif also_same is not None and a == also_same(None):
+                        writes.append("next")
+                    else:
+                        writes.append(("term", a))
         return writes, argn, looks
 
     def absent(s_, r):
@@ -236,11 +250,7 @@ def _fsm_cells(ck, fx, hb):
                         consistent = all(_holds(ef["args"][0], pay, x) in (None, ef["args"][1] == ("lit", True)) for ef in s_.eff if ef["k"] == "assume" and _mentions(ef["args"][0], pay))
                         if not consistent:
                             continue
-                        w2 = []
-                        for ef in s_.eff:
-                            if ef["k"] == "call" and ef["args"][0][1].rsplit("::", 1)[-1] in ("push", "write_char") and len(ef["args"]) == 3 and ef["args"][1][0] == "var":
-                                a = ef["args"][2]
-                                w2.append(a[1] if a[0] == "lit" else (x if (a == pay and x != OTHER) else "?"))
+                        w2 = [(x if (t_[1] == pay and x != OTHER) else "?") if isinstance(t_, tuple) else t_ for t_ in w]
                         if is_ok(o):
                             succ.append((tuple(w2), argn))
                         else:
@@ -264,6 +274,7 @@ def _fsm_cells(ck, fx, hb):
             for s_, o in res:
                 if is_ok(o):
                     w, argn, looks = actions(s_, cv)
+                    w = ["?" if isinstance(t_, tuple) else t_ for t_ in w]
                     succ.append((tuple(w), argn + 100 * len(looks), s_.env.get(esc[0]) if esc is not None else L(False)))
                 else:
                     fails += 1
@@ -468,6 +479,15 @@ def _render(ck, fx):
             sem_rows = CR0.decide_pointer(fx, pb)
         except Exception as e:  # noqa
             ck.note("R15.render: pointer renderer could not be executed symbolically (%s: %s); falling back to the shape rules" % (type(e).__name__, str(e)[:80]))
+    # the renderer `print` calls (Pointer::evaluate_as_string): a plain entry into the recursive renderer
+    eb = fx.body("bytecode::heap::Pointer::evaluate_as_string")
+    if ck.anchor("R15.render", "Pointer::evaluate_as_string (entry)", eb):
+        try:
+            from . import c15_render as CR1
+            oke, whye = CR1.decide_entry(fx, eb)
+        except Exception as e:  # noqa
+            oke, whye = False, "cannot execute the entry renderer symbolically (unprovable): %s" % str(e)[:100]
+        ck.ob("R15.render", "print renders every argument afresh through the recursive renderer", oke, loc(eb), whye)
     if sem_rows is not None:
         ck.fn(pb["path"])
         for key, okr, whyr in sem_rows:
